@@ -118,6 +118,7 @@ pub fn run_c15<H: HB>(tier: Tier) -> Outcome {
     let q = tier == Tier::Quick;
     let th = threads();
     let (k, m) = if q { (3u32, 2usize) } else { (3, 3) };
+    let _ = q;
     let prios: Vec<i32> = (0..m as i32).collect();
     let t0 = Instant::now();
     let cfg = base_cfg(prop, k, &prios, A_REACH | A_PAYLOAD);
@@ -186,7 +187,7 @@ pub fn run_c15<H: HB>(tier: Tier) -> Outcome {
         }
     }
     // arbitrary input
-    let len = if q { 3 } else { 4 };
+    let len = 4;
     let keys: Vec<u32> = (0..3).collect();
     let seqs: Vec<Vec<Pair>> = pair_seqs(&keys, &[0, 1, 2], len).into_iter().map(|s| s.into_iter().map(|(k, _, p)| (k, 0, p)).collect()).collect();
     let acfg = base_cfg(prop, 3, &[0, 1, 2], A_CORE | A_CLEAR_DRAIN);
